@@ -1,4 +1,5 @@
 import Bp7.Props.C04
+import Bp7.Props.C02
 #print axioms Bp7.C04.primary_crc_is_crc_of_zeroed
 #print axioms Bp7.C04.canon_crc_is_crc_of_zeroed
 #print axioms Bp7.C04.zeroed_of_updated
@@ -11,3 +12,4 @@ import Bp7.Props.C04
 #print axioms Bp7.C04.model_crc32c_check
 #print axioms Bp7.Spec.crc16_check
 #print axioms Bp7.Spec.crc32c_check
+#print axioms Bp7.C02.crcAgree
